@@ -1,6 +1,7 @@
 (* Props/C07.v — layer precedence in differencing, backing and snapshot chains. *)
 From Coq Require Import ZArith List Bool.
 Import ListNotations.
+From DH Require Model.Qcow2 Proofs.Qcow2 Spec.Qcow2.
 From DH Require Import Base.Plan Base.Table Model.Chain Proofs.Chain Proofs.Layers
   Model.Vdi Proofs.Vdi Model.Hds Proofs.Hds Model.Vhdx Proofs.Vhdx Proofs.VhdxPartial Proofs.VhdxLayer
   Model.OpenParent Proofs.OpenParent.
@@ -40,6 +41,27 @@ Theorem C07_vhdx_chain :
   chain_read (map vhdx_layer xs) 0 off n = Ok (map (chain_src (map vhdx_layer xs) 0) (zseq off n)).
 Proof. exact vhdx_chain_correct. Qed.
 Print Assumptions C07_vhdx_chain.
+
+Theorem C07_qcow2_backing_chain :
+  forall size (ims : list Model.Qcow2.image),
+  Forall (fun im => Proofs.Qcow2.wf_image im /\
+                    Spec.Qcow2.conformant (Model.Qcow2.spec_of im) (Model.Qcow2.size_of im) /\
+                    Model.Qcow2.size_of im = size) ims ->
+  forall off n, 0 <= off -> 0 <= n -> off + n <= size ->
+  chain_read (map qcow2_layer ims) 0 off n = Ok (map (chain_src (map qcow2_layer ims) 0) (zseq off n)).
+Proof. exact qcow2_chain_correct. Qed.
+Print Assumptions C07_qcow2_backing_chain.
+
+(* any byte-granular reader with an exact pointwise theorem whose parent references stay at the same guest
+   offset is a layer (this is how further formats plug into the chain theorem) *)
+Theorem C07_exact_reader_is_layer :
+  forall size (l : layer),
+  (forall o o', l_src l o = Parent o' -> o' = o) ->
+  (forall off n, 0 <= off -> 0 <= n -> off + n <= size ->
+     exists p, l_read l off n = Ok p /\ srcs_of p = map (l_src l) (zseq off n)) ->
+  layer_ok size 1 l.
+Proof. exact exact_reader_layer_ok. Qed.
+Print Assumptions C07_exact_reader_is_layer.
 
 (* 3. VHDX per-sector bitmaps: the run iterator expands to exactly bits [start, start+len) of the
       bitmap, for every bitmap, every start bit 0..7 and every length. *)
